@@ -48,6 +48,12 @@ coap_pdu_t *coap_oscore_decrypt_pdu(coap_session_t *session, coap_pdu_t *pdu) {
   __CPROVER_assert(0, "cut: OSCORE is unreachable (no OSCORE option / context)");
   return NULL;
 }
+size_t coap_oscore_overhead(coap_session_t *session, coap_pdu_t *pdu) {
+  (void)pdu;
+  /* the real function returns 0 for a session without an OSCORE recipient context */
+  __CPROVER_assert(session->recipient_ctx == NULL, "cut: OSCORE is unreachable (no recipient context)");
+  return 0;
+}
 coap_pdu_t *coap_oscore_new_pdu_encrypted_lkd(coap_session_t *session, coap_pdu_t *pdu, coap_bin_const_t *kid_context, oscore_partial_iv_t send_partial_iv) {
   (void)session; (void)pdu; (void)kid_context; (void)send_partial_iv;
   __CPROVER_assert(0, "cut: OSCORE is unreachable (oscore_encryption = 0)");
